@@ -53,7 +53,14 @@ def make_atom_classifier(r: Resolver, stack_var: str | None) -> Callable[[ast.AS
             alts = d[1] if d[0] == "phi" else [d]
             kinds = set()
             for a in alts:
-                if a[0] == "opaque" and a[1] == "DictComp":
+                if a[0] == "mapped_dict" and a[2] == ("attr", ("elem", a[1]), "name") and a[3] == ("elem", a[1]) and not a[4]:
+                    # {x.name: x for x in <collection>}: lookup by name in that collection
+                    base = a[1]
+                    if base[0] == "attr" and base[2].endswith("variables"):
+                        kinds.add("var")
+                    elif base[0] == "attr" and base[2] == "terms":
+                        kinds.add("term")
+                elif a[0] == "opaque" and a[1] == "DictComp":
                     node = r.opaque_nodes.get(a[3])
                     it = unparse(node.generators[0].iter) if node is not None else ""
                     if it.endswith("variables"):
@@ -115,7 +122,7 @@ def token_loop(r: Resolver):
 def state_variables(fn, consts: dict[str, int]) -> set[str]:
     """Locals whose every assignment is an expression over the flag constants."""
     cands: dict[str, bool] = {}
-    for s in ast.walk(fn.node):
+    for s in ast.walk(fn.analysis_node):
         if isinstance(s, ast.Assign) and len(s.targets) == 1 and isinstance(s.targets[0], ast.Name):
             name = s.targets[0].id
             names = {x.id for x in ast.walk(s.value) if isinstance(x, ast.Name)}
@@ -295,7 +302,7 @@ def rule_automaton(check: Check) -> None:
         raise AnalysisError("Rule.parse: states not recognised")
     # the two token lists whose emptiness is tested after the loop
     lists: dict[str, str] = {}
-    for s in ast.walk(fn.node):
+    for s in ast.walk(fn.analysis_node):
         if isinstance(s, ast.Call) and isinstance(s.func, ast.Attribute) and s.func.attr == "append" and isinstance(s.func.value, ast.Name):
             lists.setdefault(s.func.value.id, f"list{len(lists)}")
     m = Machine(fn, r, consts, svars, None, None, make_atom_classifier(r, None), list_flags=lists)
@@ -307,7 +314,7 @@ def rule_automaton(check: Check) -> None:
     ex = extract(m, head, classes, init)
     # which list is the antecedent / consequent: by the attribute they are joined into after the loop
     role: dict[str, str] = {}
-    for s in ast.walk(fn.node):
+    for s in ast.walk(fn.analysis_node):
         if isinstance(s, ast.Assign) and isinstance(s.targets[0], ast.Attribute) and isinstance(s.targets[0].value, ast.Attribute):
             owner = s.targets[0].value.attr
             for x in ast.walk(s.value):
@@ -350,17 +357,17 @@ def rule_automaton(check: Check) -> None:
     # consistency of the abstract flags with the spec's booleans is part of the product (checked through acceptance)
     compare(check, "F", "Rule.parse", fn, ex, ("BEGIN", False, False), step2, accept, list(classes), {"SyntaxError", "ValueError"})
     # weight: parsed from the token after `with`, default 1.0
-    wdefs = [s for s in ast.walk(fn.node) if isinstance(s, ast.Assign) and isinstance(s.targets[0], ast.Name) and s.targets[0].id == "weight"]
+    wdefs = [s for s in ast.walk(fn.analysis_node) if isinstance(s, ast.Assign) and isinstance(s.targets[0], ast.Name) and s.targets[0].id == "weight"]
     init_ok = any(isinstance(s.value, ast.Constant) and s.value.value == 1.0 for s in wdefs)
     parsed = any(isinstance(s.value, ast.Call) and unparse(s.value.func) in ("float", "to_float") for s in wdefs)
     stored = any(isinstance(s, ast.Assign) and isinstance(s.targets[0], ast.Attribute) and s.targets[0].attr == "weight" and
-                 isinstance(s.value, ast.Name) and s.value.id == "weight" for s in ast.walk(fn.node))
+                 isinstance(s.value, ast.Name) and s.value.id == "weight" for s in ast.walk(fn.analysis_node))
     check.require(init_ok and parsed and stored, "F1", "Rule.parse/weight",
                   "the weight defaults to 1.0, is parsed from the token after `with` and stored", loc(fn))
 
 
 def _stack_var(fn) -> str | None:
-    for s in ast.walk(fn.node):
+    for s in ast.walk(fn.analysis_node):
         if isinstance(s, (ast.Assign, ast.AnnAssign)):
             v = s.value
             t = s.targets[0] if isinstance(s, ast.Assign) else s.target
@@ -415,7 +422,7 @@ def exception_discipline(check: Check) -> None:
         f = cg._fn.get(q)
         if f is None:
             continue
-        for n in ast.walk(f.node):
+        for n in ast.walk(f.analysis_node):
             if not isinstance(n, ast.Raise) or n.exc is None:
                 continue
             name = unparse(n.exc.func) if isinstance(n.exc, ast.Call) else unparse(n.exc)
@@ -440,7 +447,7 @@ def exception_discipline(check: Check) -> None:
 
 
 def _ordinal_raise(f, node) -> int:
-    rs = [n for n in ast.walk(f.node) if isinstance(n, ast.Raise)]
+    rs = [n for n in ast.walk(f.analysis_node) if isinstance(n, ast.Raise)]
     rs.sort(key=lambda n: (n.lineno, n.col_offset))
     return rs.index(node)
 
@@ -456,7 +463,7 @@ def exemption_holds(check: Check, q: str, name: str) -> bool:
         return len(members) == 2 and "is_function()" in src and "is_operator()" in src and all(f"token == '{c}'" in src for c in "(),")
     if q == "RuleBlock.load_rules":
         fn = p.func("FllImporter.engine")
-        calls = [c for c in ast.walk(fn.node) if isinstance(c, ast.Call) and unparse(c.func) == "Engine"]
+        calls = [c for c in ast.walk(fn.analysis_node) if isinstance(c, ast.Call) and unparse(c.func) == "Engine"]
         return bool(calls) and all(not c.args and not c.keywords for c in calls)
     return False
 
@@ -675,7 +682,7 @@ def _may_raise(cg: CallGraph, q: str, depth: int = 0, seen: set | None = None) -
     f = cg._fn.get(q)
     if f is None:
         return False
-    res = any(isinstance(x, ast.Raise) for x in ast.walk(f.node))
+    res = any(isinstance(x, ast.Raise) for x in ast.walk(f.analysis_node))
     if not res:
         res = any(_may_raise(cg, c, depth + 1, seen) for c in cg.callees(f))
     memo[q] = res
